@@ -125,6 +125,36 @@ def run_case_a(args):
             elif compared and opt.get("rows") and fired_nontrivial(opt):
                 res["nontrivial"].append(h(q.sql))
         res["sample"] = dict(engine=engine, layout=layout if engine == "disk" else None, setup=stmts[:2], query=q.sql[:160])
+        # key-range push-down over runs of equal keys (a stream of its own, after everything else): on disk the optimizer turns a
+        # range on the INT key into a range scan that seeks through the block index; runs of equal key values that end and start
+        # blocks are where that seek can lose rows. Every key value is used as a bound.
+        rng2 = random.Random(f"c01a2-{seed}-{idx}")
+        if engine == "disk" and rng2.random() < 0.5:
+            nk, nrows = rng2.choice([3, 6, 12]), rng2.choice([60, 120, 250])
+            keys = [rng2.randrange(nk) * rng2.choice([1, 1, 3]) for _ in range(nrows)]
+            extra = ["CREATE TABLE dk(k INT PRIMARY KEY, v INT)",
+                     "INSERT INTO dk VALUES " + ", ".join(f"({kv}, {i})" for i, kv in enumerate(keys)),
+                     f"SET mock_rowcount_dk = {nrows}"]
+            err = setup(rl, extra)
+            if err:
+                res["inconclusive"] = err
+                return res
+            for kv in sorted(set(keys)):
+                for op in rng2.sample([">=", "=", ">", "<=", "<"], 2) + [">="]:
+                    sql = rng2.choice([f"SELECT COUNT(*), SUM(v) FROM dk WHERE k {op} {kv}", f"SELECT k, v FROM dk WHERE k {op} {kv}",
+                                       f"SELECT v FROM dk WHERE k {op} {kv} AND v % 3 = 1"])
+                    v, compared, ref_failed, opt = judge_query(rl, sql, None)
+                    res["evals"] += 1
+                    if v == "dead":
+                        res["inconclusive"] = "runner died"
+                        break
+                    for k_, n_ in (opt.get("raw", {}).get("rules") or {}).items():
+                        res["rules"][k_] = res["rules"].get(k_, 0) + n_
+                    res["compared"] += compared
+                    res["key_run_probes"] = res.get("key_run_probes", 0) + compared
+                    if v:
+                        v["concrete"] = dict(leg="A", setup=stmts + extra, engine=engine, layout=layout, sql=sql, order=None)
+                        res["violations"].append(v)
     except Exception as e:
         res["inconclusive"] = f"harness: {type(e).__name__}: {e}"
     finally:
@@ -235,6 +265,7 @@ def run(tier, seed):
             rep.sample(dict(leg=res["leg"], **res["sample"]), limit=4)
         if res["leg"] == "A":
             tot["compared"] += res["compared"]
+            tot["key_run_probes"] = tot.get("key_run_probes", 0) + res.get("key_run_probes", 0)
             tot["ref_failed"] += res["ref_failed"]
             for k, v in res["rules"].items():
                 fired[k] = fired.get(k, 0) + v
@@ -254,7 +285,7 @@ def run(tier, seed):
         allrules = []
     validated = sorted(k for k, c in per_rule.items() if c[0])
     rep.coverage.update(
-        queries_compared_on_vs_off=tot["compared"], queries_without_unoptimized_reference=tot["ref_failed"],
+        queries_compared_on_vs_off=tot["compared"], key_range_probes_over_equal_key_runs_compared=tot.get("key_run_probes", 0), queries_without_unoptimized_reference=tot["ref_failed"],
         rules_fired_in_optimized_runs=len(fired), rules_with_validated_single_rewrite=len(validated),
         rules_never_applied_alone=sorted(set(allrules) - set(per_rule)),
         rules_applied_but_never_comparable=sorted(k for k, c in per_rule.items() if not c[0] and not c[1]),
